@@ -142,6 +142,17 @@ class C09(PairCheck):
     close_p = 0.25
     allow_close_tlc = ()
 
+    def models(self, tier):
+        from harness.checks import tcpcl_agent
+        return PairCheck.models(self, tier) + tcpcl_agent.agent_models(tier)
+
+    def executions(self, tier, seed):
+        from harness.checks import tcpcl_agent
+        traces, metas = PairCheck.executions(self, tier, seed)
+        batch = tcpcl_agent.agent_batch(tier, seed)
+        self.extra_coverage['agent_lifecycle_traces'] = len(batch[1])
+        return [('TcpclTrace', traces, metas), batch]
+
 
 class C18(PairCheck):
     prop = 'C18'
@@ -149,6 +160,10 @@ class C18(PairCheck):
     devs = ()
     term_p = 0.5
     close_p = 0.15
+
+    def models(self, tier):
+        from harness.checks import tcpcl_agent
+        return PairCheck.models(self, tier) + tcpcl_agent.agent_models(tier, devs=False)
 
     def executions(self, tier, seed):
         traces, metas = PairCheck.executions(self, tier, seed)
@@ -170,7 +185,11 @@ class C18(PairCheck):
         traces += [atr[i] for i in keep]
         metas += [dict(ame[i], source='scripted-peer') for i in keep]
         self.extra_coverage['scripted_peer_traces'] = len(keep)
-        return [('TcpclTrace', traces, metas), ('XferObs', xt, xm)]
+        # the agent object: connection_opened / connection_closed, get_connections, connect / shutdown returns
+        from harness.checks import tcpcl_agent
+        batch = tcpcl_agent.agent_batch(tier, seed)
+        self.extra_coverage['agent_lifecycle_traces'] = len(batch[1])
+        return [('TcpclTrace', traces, metas), ('XferObs', xt, xm), batch]
 
 
 REGISTRY = {'C01': C01, 'C04': C04, 'C09': C09, 'C18': C18}
